@@ -30,6 +30,8 @@ type Ctx struct {
 	// curAllocState: the state whose allocation counter bounds pointers inside a struct value
 	// whose type invariant is being assumed
 	curAllocState *State
+	// cells of variables assigned once in their lexical family: content survives havocs
+	immCells []immCell
 }
 
 type structInfo struct {
